@@ -342,6 +342,31 @@ def run(ctx):
             ctx.notes['schedule_deviations'] = ctx.notes.get('schedule_deviations', 0) + 1
         else:
             ctx.violation('als:trace', 'trace rejected (%s); problem %s' % (v['why'], mt), case={'meta': mt, 'trace': tr})
+    # missing slice data is rejected in every mode (constant rank, rank-adaptive, weighted) unless explicitly allowed
+    for t in range(8 if quick else 40):
+        d = int(rng.integers(3, 6))
+        n = [int(x) for x in rng.integers(2, 5, size=d)]
+        I = teneva.grid_flat(n) if np.prod(n) <= 300 else teneva.sample_lhs(n, 300, seed=t)
+        km = int(rng.integers(d))
+        jm = int(rng.integers(n[km]))
+        I = I[I[:, km] != jm]                                   # slice jm of mode km is never sampled
+        y = rng.normal(size=len(I))
+        for kw in (dict(), dict(r=2), dict(r=3, e_adap=1e-6), dict(w=np.ones(len(y)))):
+            raised = None
+            try:
+                teneva.als(I, y, teneva.rand(n, 1 if 'r' in kw else 2, seed=t), nswp=1, info={}, **kw)
+            except ValueError:
+                raised = 'ValueError'
+            except Exception as ex:
+                raised = type(ex).__name__
+            ctx.case(key=('missing-slice', t, repr(sorted(kw)), ctx.seed), nontrivial=True)
+            ctx.check(raised == 'ValueError', 'als:missing-slices', 'als(%s) on a training set that never touches slice %d of mode %d (n=%s): expected ValueError, got %s'
+                      % (', '.join(sorted(kw)) or 'constant rank', jm, km, n, raised))
+        try:
+            Ya = teneva.als(I, y, teneva.rand(n, 2, seed=t), nswp=1, info={}, allow_skip_cores=True)
+            ctx.check(F.is_wellformed(Ya, n), 'als:allow-skip', 'allow_skip_cores=True: malformed result')
+        except Exception as ex:
+            ctx.violation('als:allow-skip', 'allow_skip_cores=True must accept missing slices, raised %s: %s' % (type(ex).__name__, ex))
     # rank-adaptive mode: ranks <= r, shape kept, documented stop; exactly low-rank and noisy data, every value of the
     # rank increment r_add (default, below r, 1) and of the adaptive threshold
     for t in range(12 if quick else 80):
